@@ -541,6 +541,13 @@ def _assert_invariant(contract: Contract, instance: Any) -> None:
     else:
         check = contract.condition()
 
+    if inspect.iscoroutine(check):
+        check.close()
+        raise ValueError(
+            "Unexpected coroutine resulting from the invariant condition {}: "
+            "the invariants are checked synchronously.".format(contract.condition)
+        )
+
     if not_check(check=check, contract=contract):
         raise _create_violation_error(
             contract=contract, resolved_kwargs={"self": instance}
